@@ -306,6 +306,8 @@ class _Wrapped:
     def __format__(self, spec):
         if spec == '' and isinstance(self.value, int) and not isinstance(self.value, bool) and self.field == 'width':
             return str(self.value)      # (a field used inside another field's format specification)
+        if self.value == '' and isinstance(self.value, str):
+            return format('', spec)     # (a field that renders to nothing)
         return format('<%s>' % self.field, spec)
 
     def __getitem__(self, key):
